@@ -21,7 +21,7 @@ ID = 'C17'
 LEVEL = 'model_checking'
 
 TAB = {'C': F.CASE, 'I': F.IGNORECASE, 'W': F.FORCEWIN, 'U': F.FORCEUNIX, 'E': F.EXTMATCH, 'D': F.DOTMATCH,
-       'G': G.GLOBSTAR, 'X': G.MATCHBASE, 'Z': G.NODOTDIR}
+       'G': G.GLOBSTAR, 'X': G.MATCHBASE, 'Z': G.NODOTDIR, 'S': F.SPLIT}
 
 
 def flags_of(fs):
@@ -217,6 +217,14 @@ def check_bslash(res):
             except Exception:  # noqa: BLE001
                 continue
             lang_equal(res, 'bslash', {'mode': 'glob', 'pattern': p1, 'pattern2': p2, 'flags': base + 'W'}, m1, m2)
+    # in path mode an escaped backslash ends a would-be bracket exactly as a slash does - for SPLIT's scanner too
+    for base in ('E', 'GE'):
+        for p1, p2 in (('[a\\\\|b]', '[a/|b]'), ('x[\\\\|]', 'x[/|]'), ('[a\\\\b]|c', '[a/b]|c'), ('a|[\\\\|]', 'a|[/|]')):
+            try:
+                m1, m2 = comp('glob', p1, base + 'WS'), comp('glob', p2, base + 'WS')
+            except Exception:  # noqa: BLE001
+                continue
+            lang_equal(res, 'bslash', {'mode': 'glob', 'pattern': p1, 'pattern2': p2, 'flags': base + 'WS'}, m1, m2)
     res.samples.append({'bslash': ['a\\\\b', 'a/b']})
 
 
